@@ -4,6 +4,7 @@ import (
 	"context"
 	"encoding/json"
 	"fmt"
+	"strings"
 	"sort"
 	"sync"
 
@@ -641,4 +642,107 @@ func bodyHasRaw(raw []byte, field, val string) bool {
 	}
 	s, _ := doc[field].(string)
 	return s == val
+}
+
+// UpdateExpiryWindow: what an attempt of Update's loop that lost its CAS check had asked for must not leak into the
+// attempt that wins. mode "first-attempt-expiry": the first callback invocation (during which a rival Set commits)
+// returns an expiry, the second one none - the stored expiry must be the call's exp argument (0). mode
+// "expiry-only": the callback keeps the body and only sets an expiry, every time - after the rival's Set the
+// callback must be shown the rival's version before its expiry is applied.
+func UpdateExpiryWindow(b *Bucket, key, mode string) (WindowResult, string) {
+	c0, c1 := b.Colls[0], b.Colls[len(b.Colls)-1]
+	res := WindowResult{Loop: "Update", Rival: "Set", Pre: "live/" + mode}
+	if err := prepare(c0, key, "live"); err != nil {
+		return res, "setup: " + err.Error()
+	}
+	const E = uint32(2000000555)
+	var rivalErr error
+	_, err := c0.Update(key, 0, func(cur []byte) ([]byte, *uint32, bool, error) {
+		res.Calls++
+		res.Saw = append(res.Saw, string(cur))
+		e := E
+		if res.Calls == 1 {
+			rivalErr = doRival(c1, key, "Set", "R")
+			if mode == "first-attempt-expiry" {
+				return []byte(appendTok(string(cur), cur != nil, "U")), &e, false, nil
+			}
+		}
+		if mode == "expiry-only" {
+			return nil, &e, false, nil
+		}
+		return []byte(appendTok(string(cur), cur != nil, "U")), nil, false, nil
+	})
+	res.Err = kv.ErrClass(err)
+	res.Final = kv.ReadBack(c0, key)
+	if rivalErr != nil {
+		return res, "rival write failed: " + rivalErr.Error()
+	}
+	if err != nil {
+		return res, fmt.Sprintf("Update failed with %s after a rival Set committed inside its read-write window", res.Err)
+	}
+	if res.Calls < 2 {
+		return res, fmt.Sprintf("a rival Set committed between Update's read and write but the callback was not re-invoked (calls=%d, mode %s): its result was applied to a version it never saw", res.Calls, mode)
+	}
+	if !bodyHas(&res.Final, "rival", "R") {
+		return res, "the rival Set's write was lost"
+	}
+	switch mode {
+	case "first-attempt-expiry":
+		if res.Final.Exp != 0 {
+			return res, fmt.Sprintf("the attempt that lost its CAS check asked for expiry %d, the attempt that won asked for none (exp argument 0), yet the document is stored with expiry %d", E, res.Final.Exp)
+		}
+	case "expiry-only":
+		if res.Final.Exp != E {
+			return res, fmt.Sprintf("the expiry-only update was acknowledged but the document's expiry is %d, not %d", res.Final.Exp, E)
+		}
+	}
+	return res, ""
+}
+
+// WriteUpdateLeakWindow: the same for WriteUpdateWithXattrs - expiry and macro-expansion spec returned by an attempt
+// that lost its CAS check must not be applied by the attempt that wins; and the call's own exp argument is what
+// the document gets when the winning callback result names no expiry.
+func WriteUpdateLeakWindow(b *Bucket, key string, expArg uint32) (WindowResult, string) {
+	c0, c1 := b.Colls[0], b.Colls[len(b.Colls)-1]
+	res := WindowResult{Loop: "WriteUpdateWithXattrs", Rival: "Set", Pre: fmt.Sprintf("live/leak/exp=%d", expArg)}
+	if err := prepare(c0, key, "live"); err != nil {
+		return res, "setup: " + err.Error()
+	}
+	const E = uint32(2000000777)
+	var rivalErr error
+	opts := &sgbucket.MutateInOptions{}
+	_, err := c0.WriteUpdateWithXattrs(ctxBG, key, []string{"_x2"}, expArg, nil, opts,
+		func(doc []byte, xattrs map[string][]byte, cas uint64) (sgbucket.UpdatedDoc, error) {
+			res.Calls++
+			res.Saw = append(res.Saw, string(doc)+"|"+string(xattrs["_x2"]))
+			ud := sgbucket.UpdatedDoc{Doc: doc, Xattrs: map[string][]byte{"_x2": []byte(fmt.Sprintf(`{"attempt":%d}`, res.Calls))}}
+			if res.Calls == 1 {
+				rivalErr = doRival(c1, key, "Set", "R")
+				e := E
+				ud.Expiry = &e
+				ud.Spec = []sgbucket.MacroExpansionSpec{sgbucket.NewMacroExpansionSpec("_x2.first", sgbucket.MacroCas)}
+			}
+			return ud, nil
+		})
+	res.Err = kv.ErrClass(err)
+	res.Final = kv.ReadBack(c0, key)
+	if rivalErr != nil {
+		return res, "rival write failed: " + rivalErr.Error()
+	}
+	if err != nil {
+		return res, fmt.Sprintf("WriteUpdateWithXattrs failed with %s after a rival Set committed inside its read-write window", res.Err)
+	}
+	if res.Calls < 2 {
+		return res, fmt.Sprintf("a rival Set committed between the read and the write but the callback was not re-invoked (calls=%d)", res.Calls)
+	}
+	if res.Final.Exp != expArg {
+		return res, fmt.Sprintf("the winning attempt named no expiry and the call's exp argument is %d, but the document is stored with expiry %d (the attempt that lost its CAS check had asked for %d)", expArg, res.Final.Exp, E)
+	}
+	if m := res.Final.GX["_x2"]; strings.Contains(m, "first") || !strings.Contains(m, `"attempt":2`) {
+		return res, fmt.Sprintf("xattr _x2=%s: the macro expansion spec of the attempt that lost its CAS check was applied by the attempt that won", m)
+	}
+	if len(opts.MacroExpansion) != 0 {
+		return res, fmt.Sprintf("the caller's MutateInOptions were modified: %d macro expansion specs were added to them", len(opts.MacroExpansion))
+	}
+	return res, ""
 }
